@@ -28,7 +28,8 @@ class ReturnEx(Exception):
 
 
 class BreakEx(Exception):
-    pass
+    def __init__(self, value=None):
+        self.value = value
 
 
 class ContinueEx(Exception):
@@ -476,7 +477,19 @@ class Interp:
         if t == "Return":
             raise ReturnEx(self.eval(e["expr"], env) if e["expr"] else UNIT)
         if t == "Break":
-            raise BreakEx()
+            raise BreakEx(self.eval(e["expr"], env) if e.get("expr") is not None else None)
+        if t == "Loop":
+            n = 0
+            while True:
+                n += 1
+                if n > self.loop_cap:
+                    raise Unanalysable(f"loop exceeds {self.loop_cap} iterations under this abstract input")
+                try:
+                    self.exec_block(e["body"], env.child())
+                except BreakEx as b_:
+                    return b_.value if b_.value is not None else UNIT
+                except ContinueEx:
+                    continue
         if t == "Continue":
             raise ContinueEx()
         if t == "MacroExpr":
